@@ -403,3 +403,119 @@ def par_map(fn, items, jobs=None):
     ctx = mp.get_context("fork")
     with ctx.Pool(jobs) as pool:
         return pool.map(fn, items, chunksize=1)
+
+
+# ---------------------------------------------------------------------------
+# Batched CLI legs over cases produced by `rgmon clicases <kind>`
+
+
+class CaseEnv:
+    """What a per-case handler gets: a report to fill, a scratch directory,
+    a pinned HOME, and helpers."""
+
+    def __init__(self, rep, tmp, home):
+        self.rep = rep
+        self.tmp = tmp
+        self.home = home
+        self.seen = set()
+
+    def count(self, key, n=1):
+        c = self.rep["counters"]
+        c[key] = c.get(key, 0) + n
+
+    def nontrivial(self, key):
+        self.seen.add(hash(key))
+
+    def sample(self, obj, limit=2):
+        if len(self.rep["samples"]) < limit:
+            self.rep["samples"].append(obj)
+
+    def viol(self, sig, what, replay):
+        vc = self.rep["violation_counts"]
+        vc[sig] = vc.get(sig, 0) + 1
+        if vc[sig] <= 2:
+            self.rep["violations"].append({"signature": sig, "what": what, "replay": replay})
+
+    def inconclusive(self, note=None):
+        self.rep["inconclusive"] += 1
+        if note and len(self.rep["notes"]) < 10:
+            self.rep["notes"].append(note)
+
+    def write(self, name, data):
+        path = os.path.join(self.tmp, name)
+        with open(path, "wb") as f:
+            f.write(data)
+        return path
+
+
+def _cli_case_batch(job):
+    kind, seed, n, handler_mod, handler_name, extra = job
+    import importlib
+    handler = getattr(importlib.import_module(handler_mod), handler_name)
+    rep = empty_report()
+    if kind is not None:
+        try:
+            out = subprocess.run([RGMON, "clicases", kind, "--seed", str(seed), "--n", str(n)],
+                                 stdout=subprocess.PIPE, check=True, timeout=900).stdout
+            cases = json.loads(out)
+        except Exception as e:
+            rep["inconclusive"] += 1
+            rep["notes"].append("clicases %s failed: %r" % (kind, e))
+            return rep
+    else:
+        cases = [{"seed": mix(seed, i), "index": i} for i in range(n)]
+    tmp = tempfile.mkdtemp(prefix="cli-", dir=scratch_root())
+    home = os.path.join(tmp, "home")
+    os.makedirs(home)
+    env = CaseEnv(rep, tmp, home)
+    env.extra = extra
+    for ci, case in enumerate(cases):
+        sub = os.path.join(tmp, "c%d" % ci)
+        os.makedirs(sub)
+        env.tmp = sub
+        try:
+            handler(case, env)
+        finally:
+            # restore permissions so that the tree can be removed
+            for root, dirs, files in os.walk(sub):
+                for d in dirs:
+                    try:
+                        os.chmod(os.path.join(root, d), 0o755)
+                    except OSError:
+                        pass
+            shutil.rmtree(sub, ignore_errors=True)
+    rep["distinct_nontrivial"] = len(env.seen)
+    shutil.rmtree(tmp, ignore_errors=True)
+    return rep
+
+
+def sum_reports(reps, max_samples=3):
+    out = empty_report()
+    for r in reps:
+        out["evaluations"] += r["evaluations"]
+        out["distinct_nontrivial"] += r["distinct_nontrivial"]
+        for k, v in r["counters"].items():
+            if k.startswith("max_"):
+                out["counters"][k] = max(out["counters"].get(k, 0), v)
+            else:
+                out["counters"][k] = out["counters"].get(k, 0) + v
+        for s in r["samples"]:
+            if len(out["samples"]) < max_samples:
+                out["samples"].append(s)
+        out["violations"] += r["violations"]
+        for k, v in r["violation_counts"].items():
+            out["violation_counts"][k] = out["violation_counts"].get(k, 0) + v
+        out["inconclusive"] += r["inconclusive"]
+        for n in r["notes"]:
+            if n not in out["notes"] and len(out["notes"]) < 20:
+                out["notes"].append(n)
+    return out
+
+
+def run_cli_cases(kind, handler, seed, tag, total, per, extra=None, jobs=None):
+    """kind: rgmon clicases kind, or None for handler-generated cases (the
+    handler then receives {"seed": ..., "index": ...})."""
+    nb = max(1, (total + per - 1) // per)
+    batch = [(kind, mix(seed, tag, i) & 0x7FFFFFFF, per, handler.__module__, handler.__name__, extra)
+             for i in range(nb)]
+    return sum_reports(par_map(_cli_case_batch, batch, jobs))
